@@ -13,7 +13,7 @@
             failure attributed to a listed known finding   -> KNOWN-FINDING line
  6. write evidence/<Cxx>.json
 """
-import json, os, re, subprocess, sys, time, glob, shutil
+import json, os, re, subprocess, sys, time, glob, shutil, tempfile
 from concurrent.futures import ThreadPoolExecutor
 
 ROOT = os.path.dirname(os.path.dirname(os.path.abspath(__file__)))
@@ -44,16 +44,40 @@ ASSUMPTIONS = {
     "C18": ["encoding equality with the variant payload relies on the unvalidated derive semantics (see C01)"],
 }
 
+# thorough tier: what the compile tier (DESIGN.md 5.4) validates instead of the assumption above
+ASSUMPTIONS_THOROUGH = {
+    "C01": ["the meaning rustc and parity-scale-codec's derive give to an emitted item is the shape semantics shape_rust of Model/Shape.v; "
+            "validated in this run by the compile tier (coverage.compile_tier): the generated modules are compiled with Encode/Decode derives and "
+            "byte strings from scale-value's encode_as_type are decoded with the generated type of every id, must consume all input and re-encode "
+            "to the same bytes - on the sampled registries and vectors only; the Coq decode function itself is not run against these bytes"],
+    "C02": ["rustc acceptance is validated on the compile tier's registries (coverage.compile_tier: arm corpus, random programs, Polkadot) with "
+            "Encode/Decode/CompactAs derives, not on every case of the run; syn::parse2::<File> is run on every observed module"],
+    "C18": ["encoding equality with the variant payload is validated by the compile tier (coverage.compile_tier): the standalone struct is compiled "
+            "next to the generated module, built from the decoded variant's own fields, and must encode to the item's bytes minus the index byte - "
+            "on the sampled registries and vectors only"],
+}
+COMPILE_TIER_PARTS = {"C02": "a", "C01": "ab", "C18": "ac"}
+
 # extra Coq targets a property needs besides Properties/<id>.vo and Corr/Run<id>.vo
 EXTRA_TARGETS = {}
 # properties sharing the type-generator case family use Corr/CheckTG.v
 TG_PROPS = {"C01", "C02", "C05", "C06", "C07", "C08", "C09", "C10", "C17", "C18"}
 
 
-def sh(cmd, cwd=None, timeout=None, env=None):
+def sh(cmd, cwd=None, timeout=None, env=None, preexec_fn=None):
     p = subprocess.run(cmd, cwd=cwd, shell=isinstance(cmd, str), stdout=subprocess.PIPE,
-                       stderr=subprocess.STDOUT, timeout=timeout, env=env)
+                       stderr=subprocess.STDOUT, timeout=timeout, env=env, preexec_fn=preexec_fn)
     return p.returncode, p.stdout.decode("utf-8", "replace")
+
+
+def _raise_stack():
+    """coqc reads the 2 MB term of the Polkadot case (thorough tier) recursively: the default 8 MB stack overflows"""
+    import resource
+    try:
+        soft, hard = resource.getrlimit(resource.RLIMIT_STACK)
+        resource.setrlimit(resource.RLIMIT_STACK, (hard, hard))
+    except Exception:
+        pass
 
 
 def strip_comments(src):
@@ -153,13 +177,41 @@ def run_harness(prop, tier, seed, work, replay):
     return rc == 0, out
 
 
+def compile_tier(prop, seed, work=None, replay=None):
+    """Thorough tier of C01 / C02 / C18 (DESIGN.md 5.4): the harness writes a cargo project with the generated
+    modules into a scratch directory outside /repo and /verif, builds it offline, runs the byte vectors and
+    removes everything again (here as well, in case the harness is killed).
+    Returns (report or None, log)."""
+    work = work or os.path.join(ROOT, "work", prop)
+    exe = os.path.join(HARNESS, "target", "release", "vharness")
+    scratch = tempfile.mkdtemp(prefix="ct_%s_%d_" % (prop, os.getpid()))
+    rep_path = os.path.join(work, "compile_tier.json")
+    if os.path.exists(rep_path):
+        os.remove(rep_path)
+    env = dict(os.environ)
+    env["VERIF_DIR"] = ROOT
+    env["CARGO_NET_OFFLINE"] = "true"
+    cmd = [exe, "compile-tier", str(seed), work, "--parts", COMPILE_TIER_PARTS[prop], "--scratch", os.path.join(scratch, "p")]
+    cmd += ["--replay", replay] if replay else ["--polkadot", "--random", "100"]
+    try:
+        rc, out = sh(cmd, cwd=ROOT, timeout=2400, env=env)
+    except subprocess.TimeoutExpired:
+        rc, out = 124, "compile tier timed out"
+    finally:
+        shutil.rmtree(scratch, ignore_errors=True)
+    try:
+        return json.load(open(rep_path)), out
+    except Exception:
+        return None, out
+
+
 TAG_RE = re.compile(r'\(\s*"([A-Za-z0-9_]+)"\s*,\s*(\[[^\]]*\]|nil)', re.S)
 
 
 def run_shard(path):
     t = 3600
     rc, out = sh(["timeout", str(t), "coqc", "-noglob", "-Q", COQ, "V", "-w", "-notation-overridden", path],
-                 cwd=os.path.dirname(path), timeout=t + 60)
+                 cwd=os.path.dirname(path), timeout=t + 60, preexec_fn=_raise_stack)
     open(path + ".out", "w").write(out)
     if rc != 0:
         return path, None, out
@@ -203,6 +255,13 @@ def main():
 
     violations = []      # (replay path, suffix)
     notes = []
+    # a replay file written by the compile tier is re-run by the compile tier (any tier)
+    ct_replay = False
+    if replay and prop in COMPILE_TIER_PARTS:
+        try:
+            ct_replay = json.load(open(replay)).get("kind") == "compile-tier"
+        except Exception:
+            ct_replay = False
 
     def write_replay(name, obj):
         p = os.path.join(work, "replay_%s.json" % name)
@@ -247,7 +306,7 @@ def main():
                                            "obligation": "the harness (public API of /repo) no longer builds",
                                            "log_tail": hlog[-4000:]})
         violations.append((p, "no-failing-input-found"))
-    elif ok_coq:
+    elif ok_coq and not ct_replay:
         ok_r, rlog = run_harness(prop, tier, seed, work, replay)
         if not ok_r:
             p = write_replay("harness_run", {"kind": "correspondence-broken",
@@ -320,8 +379,40 @@ def main():
                                   "checker evaluated to true on all %d observed outputs" % len(cases)})
         violations.append((p, "no-failing-input-found"))
 
+    # ---- 2b. compile tier (thorough, C01 / C02 / C18) --------------------------------
+    ct = None
+    ct_known = []
+    if prop in COMPILE_TIER_PARTS and ok_h and ((tier == "thorough" and not replay) or ct_replay):
+        ct, ct_log = compile_tier(prop, seed, work, replay if ct_replay else None)
+        if ct is None:
+            p = write_replay("compile_tier", {"kind": "correspondence-broken",
+                                              "obligation": "compile tier (vharness compile-tier) did not produce a report",
+                                              "log_tail": ct_log[-4000:]})
+            violations.append((p, "no-failing-input-found"))
+        else:
+            fl = ct.get("failures", [])
+            with_replay = [f for f in fl if f.get("replay")]
+            if with_replay:
+                # a concrete failing input: registry + settings + (type id, bytes | rustc diagnostics)
+                violations.append((with_replay[0]["replay"], ""))
+                if len(fl) > 1:
+                    notes.append("compile tier: %d further failures (see work/%s/compile_tier.json)" % (len(fl) - 1, prop))
+            elif fl:
+                p = write_replay("compile_tier", {"kind": "correspondence-broken",
+                                                  "obligation": "the compile tier's scratch project does not build for a reason not tied to a registry",
+                                                  "failures": fl[:3]})
+                violations.append((p, "no-failing-input-found"))
+            for fid in sorted(ct.get("known_findings_reproduced", {})):
+                for f in findings:
+                    if f["id"] == fid and f["status"] == "known" and prop in ([f["property"]] + f.get("properties", [])):
+                        ct_known.append(f)
+            if ct.get("known_findings_not_reproduced"):
+                notes.append("compile tier: witnesses of %s no longer fail to compile - the exclusion of such registries should be lifted"
+                             % ", ".join(ct["known_findings_not_reproduced"]))
+
     # ---- 3. report --------------------------------------------------------------
     seen = set()
+    known_lines = known_lines + ct_known
     for f in known_lines:
         if f["id"] not in seen:
             seen.add(f["id"])
@@ -334,6 +425,10 @@ def main():
     hyp = {t: len(v) for t, v in tags.items() if t.startswith("hyp_") or t.startswith("known_")}
     obligations = obligations_proof + len(corr_tags)
     discharged = discharged_proof + len([t for t in corr_tags if not tags[t]])
+    if prop in COMPILE_TIER_PARTS and ((tier == "thorough" and not replay) or ct_replay):
+        obligations += 1
+        if ct is not None and not ct.get("failures"):
+            discharged += 1
     ax_text = {t: ("Closed under the global context" if not a else "Axioms: " + ", ".join(a))
                for t, a in assumptions.items()}
     ev = {
@@ -367,10 +462,28 @@ def main():
             "known_findings_reported": sorted(seen),
             "coqc_eval_wall_s": round(coqc_wall, 1),
         },
-        "assumptions": ASSUMPTIONS_COMMON + ASSUMPTIONS.get(prop, []) + notes,
+        "assumptions": ASSUMPTIONS_COMMON + ((ASSUMPTIONS_THOROUGH if ct is not None else ASSUMPTIONS).get(prop)
+                                             or ASSUMPTIONS.get(prop, [])) + notes,
         "wall_s": round(time.time() - t0, 1),
         "violations": len(violations),
     }
+    if ct is not None:
+        ev["coverage"]["compile_tier"] = {
+            "registries": ct.get("registries_compiled"), "items": ct.get("items"),
+            "vectors_run": ct.get("vectors_run"), "vectors_passed": ct.get("vectors_passed"),
+            "vectors_skipped": ct.get("vectors_skipped"), "rustc_ok": ct.get("rustc_ok"), "wall_s": ct.get("wall_s"),
+            "parts": ct.get("parts"), "polkadot": ct.get("polkadot"),
+            "registries_generated": ct.get("registries"), "registries_skipped": ct.get("registries_skipped"),
+            "module_source_bytes": ct.get("module_source_bytes"),
+            "type_ids_considered": ct.get("type_ids_considered"), "field_lists_considered": ct.get("field_lists_considered"),
+            "vectors_b": ct.get("vectors_b"), "vectors_c": ct.get("vectors_c"),
+            "vectors_canonicalised": ct.get("vectors_canonicalised"), "vectors_failed": ct.get("vectors_failed"),
+            "known_findings_reproduced": sorted(ct.get("known_findings_reproduced", {})),
+            "rustc_errors": ct.get("rustc_errors", [])[:20],
+            "build_s": ct.get("build_s"), "scratch_removed": ct.get("scratch_removed"),
+            "cmd": "harness/target/release/vharness compile-tier <seed> work/%s --parts %s --polkadot (cargo build --offline in a scratch "
+                   "directory under $TMPDIR, removed afterwards)" % (prop, COMPILE_TIER_PARTS[prop]),
+        }
     json.dump(ev, open(evidence_path, "w"), indent=1, ensure_ascii=False)
     sys.exit(1 if violations else 0)
 
